@@ -130,7 +130,7 @@ fn history(o: &mut Out, r: &mut Rng, sizes: &[u64], nops: u64, mixed: bool) {
                         k
                     }
                 } else {
-                    a_kmer(r, 2)
+                    a_kmer(r, 1)
                 };
                 kmers.push(km.clone());
                 o.op(&format!("kmer {} {}", i, km));
@@ -144,7 +144,7 @@ fn history(o: &mut Out, r: &mut Rng, sizes: &[u64], nops: u64, mixed: bool) {
                         k
                     }
                 } else {
-                    a_kmer(r, 2)
+                    a_kmer(r, 1)
                 };
                 o.op(&format!("getk {} {}", i, km));
             }
